@@ -57,6 +57,79 @@ Section C06.
     Qed.
   End Passes.
 
+  (* ---- an annotation the checker rejects for EVERY value (a generic without type arguments) -------------------- *)
+  Definition always_rejects (a : ann) : Prop := forall v tv, exists e tv', check a v tv = (Raise e, tv').
+
+  Lemma chk_never f c inst a v s st : always_rejects a -> never_ok (chk check consumes f c inst a v s st).
+  Proof.
+    intro H. unfold chk. destruct (clazz_probe f c inst); [|exact I].
+    destruct (H v (a_tv st)) as [e [tv' ->]]. exact I.
+  Qed.
+
+  Lemma bind_chk_never {B} f c inst a v s st (k : astate -> outcome B) :
+    always_rejects a -> never_ok (Exn.bind (chk check consumes f c inst a v s st) k).
+  Proof.
+    intro H. pose proof (chk_never f c inst a v s st H) as Hn.
+    destruct (chk check consumes f c inst a v s st); [destruct Hn | exact I].
+  Qed.
+
+  Lemma pass_named_rejecting f c inst : forall ps idx st,
+    (exists p a, In p ps /\ p_ann p = Some a /\ always_rejects a) ->
+    never_ok (pass_named pc check consumes f c inst ps idx st).
+  Proof.
+    induction ps as [|p ps IH]; intros idx st [q [a [Hin [Hq Ha]]]]; [destruct Hin|].
+    cbn [pass_named]. destruct (p_ann p) as [a0|] eqn:Ea; [|exact I].
+    destruct Hin as [->|Hin].
+    - rewrite Hq in Ea. inversion Ea; subst a0.
+      destruct (kw_get (p_name q) (c_kwargs c)); [apply bind_chk_never; exact Ha|].
+      destruct (p_default q); [apply bind_chk_never; exact Ha|].
+      destruct (_ && _); [apply bind_chk_never; exact Ha | exact I].
+    - assert (Hrest : exists p0 a1, In p0 ps /\ p_ann p0 = Some a1 /\ always_rejects a1) by eauto.
+      destruct (kw_get (p_name p) (c_kwargs c)); [apply bind_never; intros; now apply IH|].
+      destruct (p_default p); [apply bind_never; intros; now apply IH|].
+      destruct (_ && _); [apply bind_never; intros; now apply IH | exact I].
+  Qed.
+
+  (* a named parameter whose annotation is rejected for every value: the call raises, the body never runs *)
+  Theorem rejecting_param_annotation : forall f c bd,
+    (exists p a, In p (filter (fun p => negb (is_star p)) (params_without_self f)) /\ p_ann p = Some a /\ always_rejects a) ->
+    never_ok (fst (run pc check consumes f c bd)) /\ snd (run pc check consumes f c bd) = [].
+  Proof.
+    intros f c bd H. unfold run, wrapper_run.
+    destruct (instance_of f c) as [inst|e]; [|split; [exact I | reflexivity]].
+    unfold pedantic_wrapper. assert (Hw : (if f_coroutine f then pc_async_wrapper pc else pc_wrapper pc) = [WAssertKwargs; WCheckTypes]).
+    { destruct (f_coroutine f); [apply (gf_awrap pc G) | apply (gf_wrap pc G)]. }
+    rewrite Hw. cbn [wsteps]. destruct (assert_uses_kwargs pc f c); [|split; [exact I | reflexivity]].
+    unfold check_types, check_steps.
+    assert (Hs : (if f_coroutine f then pc_async_steps pc else pc_sync_steps pc) = [StArgs; StCall; StRetCheck]).
+    { destruct (f_coroutine f); [apply (gf_asteps pc G) | apply (gf_steps pc G)]. }
+    rewrite Hs. cbn [steps].
+    assert (Ha : never_ok (args_phase pc check consumes f c inst astate0)).
+    { unfold args_phase. rewrite (gf_passes pc G). cbn [run_passes run_pass].
+      apply bind_never. intros x Hx. exfalso.
+      pose proof (pass_named_rejecting f c inst _ (if is_instance_method f then 1 else 0) astate0 H) as Hm. rewrite Hx in Hm. exact Hm. }
+    destruct (args_phase pc check consumes f c inst astate0); [destruct Ha | split; [exact I | reflexivity]].
+  Qed.
+
+  (* a return annotation rejected for every value: no value is handed back *)
+  Theorem rejecting_return_annotation : forall f c bd a, f_ret f = Some a -> always_rejects a ->
+    never_ok (fst (run pc check consumes f c bd)).
+  Proof.
+    intros f c bd a H Ha. unfold run, wrapper_run.
+    destruct (instance_of f c) as [inst|e]; [|exact I].
+    unfold pedantic_wrapper. assert (Hw : (if f_coroutine f then pc_async_wrapper pc else pc_wrapper pc) = [WAssertKwargs; WCheckTypes]).
+    { destruct (f_coroutine f); [apply (gf_awrap pc G) | apply (gf_wrap pc G)]. }
+    rewrite Hw. cbn [wsteps]. destruct (assert_uses_kwargs pc f c); [|exact I].
+    unfold check_types, check_steps.
+    assert (Hs : (if f_coroutine f then pc_async_steps pc else pc_sync_steps pc) = [StArgs; StCall; StRetCheck]).
+    { destruct (f_coroutine f); [apply (gf_asteps pc G) | apply (gf_steps pc G)]. }
+    rewrite Hs. cbn [steps].
+    destruct (args_phase pc check consumes f c inst astate0) as [st|]; [|exact I].
+    destruct (invoke f (call_pos pc f c) c bd (a_cons st)) as [[r|e] j]; [|exact I].
+    cbn [fst]. unfold ret_value. rewrite H. destruct (clazz_probe f c inst); [|exact I].
+    destruct (Ha r (a_tv st)) as [e [tv' ->]]. exact I.
+  Qed.
+
   (* a parameter without annotation: the call raises and the body never runs, whatever the values, the checker and the body *)
   Theorem missing_param_annotation : forall f c bd,
     missing_named f \/ missing_varpos f \/ missing_varkw f ->
